@@ -19,7 +19,7 @@ ASSUME = ['reference interpreter calibrated against the spec-suite expectations 
           'every generated module is accepted by the independent validator in vf/wasm.py before w2c2 sees it']
 
 FEAT = gen.Features(ops=gen.ALL_OPS, types=(I32, I64, F32, F64), control=True, dead_code=True, trace=True, stmts=True,
-                    globals_=True, max_depth=5, avoid_traps=False)
+                    globals_=True, max_depth=5, avoid_traps=False, calls=True)
 
 INTERESTING = ('br_value_across_labels', 'br_value_extra_operands', 'br_extra_operands', 'br_table_default_oob',
                'if_noelse_not_taken', 'loop_backedge', 'local_read_before_write', 'return_depth2', 'return_depth3')
